@@ -2,7 +2,7 @@
    Round-trip theorems for the walkers of C13/Model.v over rendered abstract documents, and
    closed refutation witnesses for nested tables. *)
 From Coq Require Import ZArith List Bool Lia ZifyBool.
-From S2T Require Import Lib.PyStr C13.Model.
+From S2T Require Import Lib.PyStr C13.Model C13.ProofsRows.
 Import ListNotations.
 Notation length := List.length.
 Notation concat := List.concat.
@@ -574,9 +574,9 @@ Proof. intro H. unfold odt_table. rewrite od_ROW_ftable. apply od_rows_ftable, H
 Theorem odp_table_flat : forall g : fgrid,
   rows_nonempty g = true -> odp_table pint skip (odf_r_ftable g) = fgrid_text g.
 Proof.
-  intros g H. unfold odp_table, odf_r_ftable. rewrite !findall_E.
-  rewrite (filter_map_false (tag_is TABLE_HEADER_ROWS)) by (intro; reflexivity). cbn [flat_map app].
-  rewrite (filter_map_true (tag_is TABLE_ROW)) by (intro; reflexivity).
+  intros g H. unfold odp_table, odf_r_ftable, table_rows. unfold E at 1.
+  rewrite collect_all_leaves
+    by (clear H; induction g as [|r g' IHg]; [reflexivity | cbn [map forallb]; rewrite IHg; reflexivity]).
   apply od_rows_ftable_gen; [exact odp_cell_fcell | exact H].
 Qed.
 
